@@ -128,7 +128,10 @@ def ir_flow(prop, tier, seed, descs, own, models, level_note_assumptions, t0, ha
         if rule == "Hang" and not hang_is_violation:
             raise V.Infra("driver hang on descriptor %s" % d)
         path = V.save_replay(prop, i, d, (driver_of or P.driver_of)(d), tf, runidx, [h])
-        log("VIOLATION property=%s replay=%s rule=%s desc=%s" % (prop, path, rule, d))
+        if nviol < 12:
+            log("VIOLATION property=%s replay=%s rule=%s desc=%s" % (prop, path, rule, d))
+        elif nviol == 12:
+            log("... further violations of %s not listed individually" % prop)
         nviol += 1
     for rule, d, kf in knownhits:
         log("KNOWN-FINDING: property=%s %s (rule %s, descriptor %s)" % (prop, kf.get("what_fails", ""), rule, d))
@@ -242,15 +245,15 @@ def check_C18(tier, seed, t0):
 
 def check_C19(tier, seed, t0):
     if tier == "quick":
-        descs = ["mode=rng;steps=67108864;cpbits=17;nsamp=3000;imax=4096;seed=%d" % seed]
+        descs = ["mode=rng;steps=2147483646;cpbits=21;nsamp=3000;imax=4096;seed=%d" % seed]
     else:
         descs = ["mode=rng;steps=2147483646;cpbits=21;nsamp=200000;imax=1048576;seed=%d" % seed]
     own = ["ExactParkMillerStep", "WalkStepsExact", "NeverDegenerate", "WalkEndsAtPower", "CheckpointsOnCycle", "SeedNormalised",
-           "DrawInRange", "DrawIsStateOverM", "ComplexDrawTwoStates", "SeedPure", "VecConsumesLenStates", "UnknownRow"]
+           "DrawInRange", "DrawIsStateOverM", "ComplexDrawTwoStates", "SeedPure", "VecConsumesLenStates", "DefaultInitIsSeed0Stream", "UnknownRow"]
     models = [("MC_PM.tla", "PM_quick.cfg" if tier == "quick" else "PM_full.cfg", 8)]
     return ir_flow("C19", tier, seed, descs, own, models, COMMON_ASSUME[:1] + [
         "the cycle walk's per-step comparison uses a 64-bit reference product in C++; TLC certifies the checkpoints and the end point independently",
-        "quick walks the first 2^26 states of the single cycle; thorough walks all 2^31 - 2 states"], t0,
+        "both tiers walk all 2^31 - 2 states of the single cycle (the spec proves the cycle structure); thorough adds 2*10^5 sampled transitions and all library seeds"], t0,
         trace_module="TraceFn.tla", trace_cfg="TraceFn.cfg", driver_of=fn_driver)
 
 
